@@ -39,6 +39,10 @@ class Pool:
         self.RE = z3.Int("reserved_dict")
         self.NI = z3.Int("next_infinite_dict")
         self.key = z3.Int("pool_key")
+        # tables looked up by the register TYPE NAME instead of the pool key reach the same pool only when the two strings coincide (riscv);
+        # they differ e.g. for x86 (type x86.reg64, pool x86.reg): then another, unrelated, table entry is consulted
+        self.same = z3.Bool("type_name_equals_pool_key")
+        self.AV2, self.AL2, self.RE2 = z3.Int("available_list_of_the_type_name"), z3.Int("allocatable_set_of_the_type_name"), z3.Int("reserved_dict_of_the_type_name")
 
     def binds(self):
         return {
@@ -47,6 +51,9 @@ class Pool:
             "self.reserved_registers[pool_key]": VRef(self.RE, "dict", ("dict", "int", "int", None, "defaultdict0")),
             "self.reserved_registers[reg.register_pool_key()]": VRef(self.RE, "dict", ("dict", "int", "int", None, "defaultdict0")),
             "self.next_infinite_indices": VRef(self.NI, "dict", ("dict", "ref", "int")),
+            "self.available_registers[reg.name]": VRef(z3.If(self.same, self.AV, self.AV2), "list", ("list", "int")),
+            "self.allocatable_registers[reg.name]": VRef(z3.If(self.same, self.AL, self.AL2), "set", ("set", "int")),
+            "self.reserved_registers[reg.name]": VRef(z3.If(self.same, self.RE, self.RE2), "dict", ("dict", "int", "int", None, "defaultdict0")),
             "reg.register_pool_key()": VRef(self.key, "str"),
             "reg_type.register_pool_key()": VRef(self.key, "str"),
         }
@@ -56,7 +63,8 @@ class Pool:
         n = st.list_len(self.AV)
         el = lambda k: st.list_el(self.AV, k)
         return [
-            A("objects", z3.And(self.AV != 0, self.AL != 0, self.RE != 0, self.NI != 0, z3.Distinct(self.AL, self.RE, self.NI), n >= 0)),
+            A("objects", z3.And(self.AV != 0, self.AL != 0, self.RE != 0, self.NI != 0, z3.Distinct(self.AL, self.RE, self.NI, self.AL2, self.RE2), n >= 0,
+                                self.AV2 != 0, self.AL2 != 0, self.RE2 != 0, self.AV2 != self.AV, st.list_len(self.AV2) >= 0)),
             A("available-has-no-duplicates", forall([i, j], z3.Implies(z3.And(i >= 0, j >= 0, i < n, j < n, i != j), el(i) != el(j)))),
             A("available-are-allocatable-and-not-reserved", forall([i], z3.Implies(z3.And(i >= 0, i < n), z3.Or(
                 el(i) < 0, z3.And(st.dict_has(self.AL, el(i)), z3.Not(st.dict_has(self.RE, el(i)))))))),
@@ -216,16 +224,20 @@ def _native_stack(tier, seed):
 
     from xdsl.backend.register_stack import OutOfRegisters, RegisterStack
     from xdsl.dialects import riscv
+    from xdsl.dialects.x86 import registers as x86r
 
     rnd = random.Random(seed)
-    regs = [riscv.IntRegisterType.from_name(n) for n in ("t0", "t1", "t2", "t3")]
-    key = regs[0].register_pool_key()
+    # two register families: riscv integers (pool key == type name) and x86 64-bit general registers (pool key "x86.reg" != type name "x86.reg64")
+    families = [(riscv.IntRegisterType, ("t0", "t1", "t2", "t3")), (x86r.Reg64Type, ("rax", "rcx", "rdx", "rsi"))]
     cases = 0
 
     def fail(why):
         return {"cases": cases, "failures": [{"key": "C19/stack", "why": why}], "exhaustive": False, "bound": ""}
 
-    for _ in range(300 if tier == "quick" else 5000):
+    for it in range(400 if tier == "quick" else 6000):
+        RT, names = families[it % 2]
+        regs = [RT.from_name(n) for n in names]
+        key = regs[0].register_pool_key()
         s = RegisterStack.get([regs[0], regs[1], regs[2]], allow_infinite=rnd.random() < 0.5)
         alloc = {r.index.data for r in regs[:3]}
         avail = [r.index.data for r in regs[:3]]
@@ -238,7 +250,7 @@ def _native_stack(tier, seed):
             if k < 0.35:
                 trace.append("pop")
                 try:
-                    r = s.pop(riscv.IntRegisterType)
+                    r = s.pop(RT)
                 except OutOfRegisters:
                     if avail:
                         return fail(f"{trace}: OutOfRegisters although {avail} are available")
